@@ -147,7 +147,25 @@ template<int D> void run_program(long id, view_program const& p) {
 	std::ostringstream os;
 	os << "{\"id\":" << id;
 	std::string status;
-	std::size_t done = run_ops(cur, p.ops, status);
+	std::size_t done = 0;
+	if(!p.ops.empty() && p.ops.front().on_array) {
+		// the first operation is applied to the owning array itself (its own overloads), the rest to the resulting views
+		any_view next;
+		bool fin = true;
+		try { fin = guard::run([&] { apply_op_on<D>(root, p.ops.front(), next); }); status = fin ? "ok" : "abort"; }
+		catch(unsupported const& u) { status = "unsupported:" + u.why; }
+		if(status == "ok") {
+			std::visit([&](auto& nv) {
+				using V = std::decay_t<decltype(nv)>;
+				if constexpr(std::is_same_v<V, std::monostate>) { status = "unsupported:no result"; }
+				else if constexpr(std::is_same_v<V, elem0>) { cur.template emplace<elem0>(nv); }
+				else { cur.template emplace<V>(std::move(nv)); }
+			}, next);
+			if(status == "ok") { done = 1 + run_ops(cur, std::vector<op_t>(p.ops.begin() + 1, p.ops.end()), status); }
+		}
+	} else {
+		done = run_ops(cur, p.ops, status);
+	}
 	if(status == "abort") {
 		os << ",\"st\":\"abort\",\"at\":" << done << ",\"abort\":" << guard::last_json();
 	} else if(status != "ok") {
